@@ -43,4 +43,4 @@ def configs(tier):
 def run(tier, seed):
     Ks = (48, 58, 70) if tier == "quick" else (52, 66, 80, 100)
     return runner.run_property("C03", tier, seed, "harness.pools_common", configs(tier), ("assert", "deadlock"), Ks,
-                               900 if tier == "quick" else 2400, META, wall_limit=1700 if tier == "quick" else 12000)
+                               900 if tier == "quick" else 1200, META, wall_limit=1700 if tier == "quick" else 5400)
